@@ -119,6 +119,40 @@ class LazyDisk:
         shutil.rmtree(self.dir, ignore_errors=True)
 
 
+class SelfDeadlock(BaseException):  # not an Exception: the store's catch-all handlers must not swallow it
+    pass
+
+
+class _CheckedLock:
+    """threading.Lock look-alike for the Manager's two locks. Every request and every disk-job half of a history runs to completion
+    on the one harness thread before the next begins, so a BLOCKING acquire of a lock that is held can only be waiting for its own
+    caller: in the real store that thread never returns (the locks are not re-entrant). It is reported instead of being waited for."""
+
+    def __init__(self, name: str):
+        import threading
+
+        self._l = threading.Lock()
+        self.name = name
+
+    def acquire(self, blocking: bool = True, timeout: float = -1):
+        if blocking and self._l.locked():
+            raise SelfDeadlock(f"blocking acquire of {self.name} while it is held by the same flow of control: the thread would wait for ever")
+        return self._l.acquire(blocking, timeout) if blocking else self._l.acquire(False)
+
+    def release(self):
+        self._l.release()
+
+    def locked(self):
+        return self._l.locked()
+
+    def __enter__(self):
+        self.acquire()
+        return self
+
+    def __exit__(self, *a):
+        self.release()
+
+
 _case_no = [0]
 
 
@@ -276,6 +310,8 @@ class Machine:
             self.m = dataset.Manager(self.prefix, capacity)
         finally:
             dataset.disk.Disk = self._saved[3]
+        self.m.pageout_one = _CheckedLock("pageout_one")
+        self.m.pageout_all = _CheckedLock("pageout_all")
         self.api = ViaServer(self.m) if via_server else self.m
         self.via_server = via_server
         # model
@@ -770,17 +806,24 @@ class Machine:
                     ki = self._sel("get_p", op[1])
                     script = [["get_p", ki], ["close", ki, 0]]
                 for sub in script:
-                    self._one(sub)
+                    self._guarded(sub)
                     self.check(sub)
                     if self.breaches:
                         return
                 continue
             if k in ("alloc", "alloc_p", "finish", "get", "get_p", "close", "purge"):
                 op = [k, self._sel(k, op[1])] + list(op[2:])
-            self._one(op)
+            self._guarded(op)
             self.check(op)
             if self.breaches:
                 return
+
+    def _guarded(self, op) -> None:
+        try:
+            self._one(op)
+        except SelfDeadlock as e:
+            self.breach("C09", "deadlock", f"during {op}: {e} -- every later request that needs this lock (eviction, purge, job "
+                        f"completion) waits for ever")
 
     def _one(self, op) -> None:
         if True:
